@@ -323,6 +323,8 @@ class ExprParser(RecursiveDescent):
             shape.append(node)
             if not self.have("COMMA"):
                 break
+        # The whole text must be consumed, 'n) (m' is not a shape.
+        self.mustbe("EOF")
         self.exit("argument_list", str(shape))
         return shape
 
@@ -748,7 +750,12 @@ class Parser(ExprParser):
                     if parens == 0:
                         self.next()
                         break
-                    parts.append(self.token.value)
+                    value = self.token.value
+                    if (parts and (parts[-1][-1:].isalnum() or parts[-1][-1:] == "_")
+                            and (value[:1].isalnum() or value[:1] == "_")):
+                        # '+dimension(n m)' must not be read as 'nm'.
+                        self.error_msg("Expected an operator before '{}' in attribute {}", value, name)
+                    parts.append(value)
                     self.next()
                 attrs[name] = "".join(parts)
             elif self.have("EQUALS"):
